@@ -247,7 +247,7 @@ def const_int(e, value):
 
 
 @rule('C05.R2', 'FileStorage abort undoes the vote: truncate to the committed '
-      'end, drop reader buffers, reset, clear staging', props=['C02', 'C04'],
+      'end, then drop reader buffers, reset, clear staging', props=['C02', 'C04'],
       min_instances=1)
 def r2(R):
     cls = R.prog.cls(FS)
@@ -259,7 +259,7 @@ def r2(R):
             'tfile.rewind', 'owner.clear')
     seen_ops = set()
 
-    def events(node, lab, held=frozenset()):
+    def events(node, lab, held=frozenset(), done=frozenset()):
         ev = set()
         for op in F.ops(node):
             if op.kind == 'call':
@@ -270,8 +270,13 @@ def r2(R):
                 # the pool is emptied while its writer side is held, i.e.
                 # after every handed-out handle has come back (a handle
                 # that is out keeps its read-ahead buffer)
+                # ... and after the bytes are gone from the file: a reader
+                # admitted between a flush and a later truncate buffers the
+                # aborted bytes again, and serves them once the next commit
+                # has written at the same offset
                 if path_is(op.path, ('self', '_files', 'empty')) and \
-                        POOL_WRITE in held_locks(held):
+                        POOL_WRITE in held_locks(held) and \
+                        'truncate' in done:
                     ev.add('poolflush')
                 if path_is(op.path, ('self', '_tindex', 'clear')):
                     ev.add('tindex.clear')
@@ -303,7 +308,7 @@ def r2(R):
         same = identity_guard(node, F)
         if same is not None and lab in ('T', 'F'):
             return (lab == same, done, held)
-        ev = events(node, lab, held)
+        ev = events(node, lab, held, done)
         held = step_held(F, node, held, lab)
         seen_ops.update(ev)
         if ev:
@@ -429,7 +434,7 @@ def r3(R):
 
 @rule('C05.R4', 'every transaction starts from an empty staging area '
       '(nothing staged by an aborted or failed transaction can be committed '
-      'by the next one)', props=['C03'], min_instances=2)
+      'by the next one)', props=['C03', 'C11'], min_instances=2)
 def r4(R):
     # FileStorage: tpc_begin runs _clear_temp (tindex cleared, tfile rewound)
     cls = R.prog.cls(FS)
@@ -648,3 +653,84 @@ def r6(R):
             for v in vs:
                 R.violation(v.node, v.message, g, v.path)
     R.require(n >= 4, 'adapter 2PC methods not found')
+
+
+# ----------------------------------------------------------------- C05.R7
+@rule('C05.R7', 'the undo data manager gives its storage instance up only '
+      'after it has asked that storage to finish or abort (the transaction '
+      'package calls abort() and then tpc_abort() when a commit fails: an '
+      'instance dropped in between keeps the commit lock for ever)',
+      props=['C06'], min_instances=2)
+def r7(R):
+    from ..flow import implied_atoms
+    cls = R.prog.cls('ZODB.DB.TransactionalUndo')
+    n = 0
+    for name, f in sorted(cls.methods.items()):
+        if name in ('__init__', 'close'):
+            continue
+        g, b, F = R.cfg(f, cls, max_depth=0)
+
+        def gives_up(op):
+            if op.kind == 'call' and (path_is(op.path, ('self', 'close')) or
+                                      path_is(op.path, ('self', '_storage',
+                                                        'release'))):
+                return True
+            if op.kind == 'store' and path_is(op.path, ('self', '_storage')):
+                v = store_value(op)
+                return v is not None and is_none_const(v)
+            return False
+
+        def ends(op):
+            return op.kind == 'call' and op.path and len(op.path) == 3 and \
+                tuple(op.path[:2]) == ('self', '_storage') and \
+                op.path[2] in ('tpc_abort', 'tpc_finish')
+
+        if not any(gives_up(op) for nid in g.reachable()
+                   for op in F.ops(g.nodes[nid])):
+            continue
+        n += 1
+        R.instance('TransactionalUndo.%s gives the instance up' % name)
+
+        def edge(node, st, lab, tgt, F=F):
+            if node.kind == 'test' and lab in ('T', 'F'):
+                for e, truth in implied_atoms(node.ast, lab):
+                    if isinstance(e, ast.Compare) and len(e.ops) == 1 and \
+                            dotted(e.left) == ('self', '_storage') and \
+                            is_none_const(e.comparators[0]):
+                        if isinstance(e.ops[0], ast.Is) == truth:
+                            return 'none'
+                    elif dotted(e) == ('self', '_storage') and not truth:
+                        return 'none'
+            # asked, whether or not the storage's call succeeds
+            if any(ends(op) for op in F.ops(node)):
+                return 'ended'
+            return st
+
+        def at(node, st, name=name, F=F):
+            if st == 'live' and node.kind != 'handler':
+                for op in F.ops(node):
+                    if gives_up(op):
+                        return Violation(
+                            'TransactionalUndo.%s releases the storage '
+                            'instance on a path on which the storage was '
+                            'asked neither to finish nor to abort: a later '
+                            'tpc_abort() finds no instance, the storage '
+                            'keeps its transaction and the commit lock, and '
+                            'every later commit blocks' % name)
+            return st
+
+        def edge2(node, st, lab, tgt, edge=edge, F=F):
+            # a failure BEFORE the storage could be asked (the manager's own
+            # bookkeeping raising) is not a path the rule judges
+            if lab in ('e', 'eb') and st == 'live' and not any(
+                    op.kind == 'call' and op.path and tuple(
+                        op.path[:2]) == ('self', '_storage')
+                    for op in F.ops(node)):
+                return PRUNE
+            return edge(node, st, lab, tgt)
+
+        vs, stats = explore(g, 'live', at=at, edge=edge2)
+        R.count(stats)
+        for v in vs:
+            R.violation(v.node, v.message, g, v.path)
+    R.require(n >= 2, 'the undo manager\'s release sites vanished')
